@@ -53,6 +53,13 @@ def main():
             subprocess.run(["git", "-C", "/repo", "worktree", "add", "--detach", wt], check=True, capture_output=True)
         r = subprocess.run(["git", "-C", patched, "apply", os.path.join(src, "patch.diff")], capture_output=True, text=True)
         if r.returncode:
+            # the tree moved on since the patch was written (later fix: commits): merge it
+            r = subprocess.run(["git", "-C", patched, "apply", "--3way", os.path.join(src, "patch.diff")], capture_output=True, text=True)
+            if r.returncode == 0:
+                out["applied_with_3way"] = True
+                rebased = subprocess.run(["git", "-C", patched, "diff", "HEAD"], capture_output=True, text=True).stdout
+                out["_rebased_patch"] = rebased
+        if r.returncode:
             out["error"] = "patch does not apply: " + r.stderr[-300:]
             print(json.dumps(out, indent=1))
             return 2
@@ -74,13 +81,17 @@ def main():
             kinds = sorted({l.split("kind=")[1].split(" ")[0] for l in r.stdout.splitlines() if "kind=" in l})
             checks[p] = {"rc": r.returncode, "verdict": {0: "MISSED", 1: "CAUGHT", 2: "INCONCLUSIVE"}.get(r.returncode, str(r.returncode)), "kinds": kinds[:5], "tier": args.tier, "tail": r.stdout.strip().splitlines()[-1][:200] if r.stdout.strip() else r.stderr[-200:]}
         out["checks"] = checks
-        print(json.dumps(out, indent=1))
+        print(json.dumps({k: v for k, v in out.items() if not k.startswith("_")}, indent=1))
         valid = args.skip_validate or (out.get("tests_ok") and out.get("demo_ok"))
         if args.keep and valid:
             dst = os.path.join(VERIF, "seeded", name)
             os.makedirs(dst, exist_ok=True)
             for f in ("patch.diff", "demo.py"):
                 shutil.copy(os.path.join(src, f), os.path.join(dst, f))
+            if out.get("_rebased_patch"):
+                # keep the patch in a form that applies to the current tree
+                shutil.copy(os.path.join(src, "patch.diff"), os.path.join(dst, "patch.original.diff"))
+                open(os.path.join(dst, "patch.diff"), "w").write(out["_rebased_patch"])
             old = {}
             if os.path.exists(os.path.join(dst, "meta.json")):
                 old = json.load(open(os.path.join(dst, "meta.json")))
